@@ -295,6 +295,8 @@ def r8_ctor_glue(F, R):
     from . import deep as D
     tw = [b for b in F.crate_bodies() if (b.impl or {}).get("trait") == "codegen::ToWorldFuture" and b.name.endswith("::to_world_future")]
     iw = [b for b in F.crate_bodies() if (b.impl or {}).get("trait") == "codegen::IntoWorldResult" and b.name.endswith("::into_world_result")]
+    if not tw and not iw and not any(b.name.startswith("codegen::") for b in F.crate_bodies()):
+        return      # the `codegen` module (feature `macros`) is not part of this configuration
     if len(tw) < 2 or len(iw) < 2:
         raise Unverifiable(f"constructor glue: ToWorldFuture impls {len(tw)}, IntoWorldResult impls {len(iw)}")
     for b in tw:
